@@ -40,18 +40,28 @@ def transitions(zone, y0=2000, y1=2037):
     return out
 
 
-def frame_around(zone, instant_utc):
-    """3 whole local days of on-the-hour hourly rows (absolute-time contiguous) around the transition"""
-    ts = pd.Timestamp(instant_utc).tz_convert(zone)
-    start = (ts - pd.Timedelta(days=1)).normalize()
-    end = (ts + pd.Timedelta(days=2)).normalize()
-    idx = pd.date_range(start.tz_convert("UTC"), end.tz_convert("UTC"), freq="h", inclusive="left").tz_convert(zone)
+def frame_around(zone, instant_utc, place="middle"):
+    """3 whole local days of on-the-hour hourly rows (absolute-time contiguous) around the transition; place = 'last' / 'first': two days,
+    the day of the change being the last / first day of the frame (a span that ends / begins on the change)"""
+    ts = pd.Timestamp(instant_utc)
+    idx = pd.date_range(ts.floor("h") - pd.Timedelta(hours=80), ts.floor("h") + pd.Timedelta(hours=80), freq="h").tz_convert(zone)
+    dates = pd.Series(idx.date, index=idx)
+    counts = dates.groupby(dates.values).size()
+    whole = sorted(counts.index)[1:-1]                       # the first and last local dates of the scan are partial
+    odd = [d for d in whole if counts[d] != 24]
+    local_day = ts.tz_convert(zone).date()
+    day = min(odd, key=lambda d: abs((d - local_day).days)) if odd else local_day
+    k = whole.index(day)
+    lo = k if place == "first" else k - 1
+    hi = k if place == "last" else k + 1
+    keep = set(whole[max(lo, 0):hi + 1])
+    idx = idx[[d in keep for d in idx.date]]
     return pd.DataFrame({"observed": np.nan, "temperature": 50.0}, index=idx)
 
 
-def check_kernel(zone, instant_iso):
+def check_kernel(zone, instant_iso, place="middle"):
     from opendsm.eemeter.models.hourly.model import _get_dst_indices, _transform_dst
-    df = frame_around(zone, pd.Timestamp(instant_iso))
+    df = frame_around(zone, pd.Timestamp(instant_iso), place)
     bad = []
     if (df.index.minute != 0).any():
         return {"ok": True, "skipped": "zone's local hours are off the hour around this change (outside the stated precondition)"}
@@ -97,6 +107,55 @@ def check_kernel(zone, instant_iso):
     return {"ok": not bad, "problems": bad}
 
 
+def transform_spec(pred, interp, mean):
+    """what the clock normalisation must return, slot by slot: the 24-slot-per-day vector with the slot of every absent hour removed and, after
+    the slot of every repeated hour, one extra value (the mean of that slot and the following one; the slot itself when it is the last)"""
+    remove = {d * 24 + h for d, h in interp}
+    insert = {d * 24 + h + 1 for d, h in mean}
+    out = []
+    for i in range(len(pred) + 1):
+        if i in insert:
+            out.append((pred[i - 1] + (pred[i] if i < len(pred) else pred[i - 1])) / 2)
+        if i < len(pred) and i not in remove:
+            out.append(pred[i])
+    return np.array(out, dtype=float)
+
+
+def check_transform(days, ops):
+    """ops: tuple of (day, kind, hour), kind 'r' = absent hour (23-row day), 'i' = repeated hour (25-row day); the two lists reach the
+    function each in date order, as _get_dst_indices builds them"""
+    from opendsm.eemeter.models.hourly.model import _transform_dst
+    interp = [(d, h) for d, k, h in ops if k == "r"]
+    mean = [(d, h) for d, k, h in ops if k == "i"]
+    pred = np.arange(24.0 * days) * 1.5 + 0.25
+    want = transform_spec(pred, interp, mean)
+    try:
+        got = np.asarray(_transform_dst(pred.copy(), (list(interp), list(mean))), dtype=float)
+    except Exception as e:  # noqa
+        return {"ok": False, "problems": [f"_transform_dst raised {type(e).__name__}: {e}"]}
+    if len(got) != len(want):
+        return {"ok": False, "problems": [f"{len(got)} values, expected {len(want)} (= {len(pred)} - {len(interp)} + {len(mean)})"]}
+    if not np.array_equal(got, want):
+        k = int(np.argmax(got != want))
+        return {"ok": False, "problems": [f"value {k} is {got[k]!r}, expected {want[k]!r}"]}
+    return {"ok": True, "problems": []}
+
+
+def transform_cases(tier):
+    import itertools
+    days = 6
+    hours = {"r": [0, 1, 2, 23], "i": [0, 1, 2, 23]}
+    out = []
+    for n in (0, 1, 2, 3):
+        for ds in itertools.combinations(range(days), n):
+            if any(b - a < 2 for a, b in zip(ds, ds[1:])):
+                continue        # two clock changes are never on consecutive days
+            for kinds in itertools.product("ri", repeat=n):
+                for hs in itertools.product(*[hours[k] for k in kinds]):
+                    out.append((days, tuple(zip(ds, kinds, hs))))
+    return out
+
+
 def check_hourly_index(zone, start, end, usage):
     from bounded.hourly_common import fitted_hourly, reporting
     m, _ = fitted_hourly(zone)
@@ -114,7 +173,8 @@ def check_hourly_index(zone, start, end, usage):
         bad.append(f"{int((~np.isfinite(p['predicted'].astype(float))).sum())} non-finite predictions")
     # every supplied timestamp has its row (the frame may add rows to complete the first / last local day, never lose one)
     from bounded.hourly_common import hourly_frame
-    supplied = hourly_frame(zone).loc[start:end].index
+    full = hourly_frame(zone)
+    supplied = full[(full.index.date >= pd.Timestamp(start).date()) & (full.index.date <= pd.Timestamp(end).date())].index
     lost = supplied.difference(p.index)
     if len(lost):
         bad.append(f"{len(lost)} supplied timestamps have no row in the prediction, e.g. {lost[0]}")
@@ -122,6 +182,10 @@ def check_hourly_index(zone, start, end, usage):
     wide = reporting(zone, str((pd.Timestamp(start) - pd.Timedelta(days=3)).date()), str((pd.Timestamp(end) + pd.Timedelta(days=3)).date()), tr)
     pw = m.predict(wide, ignore_disqualification=True)
     common = p.index.intersection(pw.index)
+    if len(p) and p.index[-1].hour == 23 and len(p) > 1 and p.index[-2].hour == 23:
+        # the span ends with the second 23:00 of a day whose clocks go back at midnight: the value synthesised for it uses the following hour when
+        # there is one, so it legitimately depends on whether the span goes on
+        common = common[common != p.index[-1]] if not common.has_duplicates else common[:-1]
     a, b = p.loc[common, "predicted"].astype(float), pw.loc[common, "predicted"].astype(float)
     if len(common) and not np.allclose(a.values, b.values, rtol=1e-9, atol=1e-9, equal_nan=True):
         k = int(np.nanargmax(np.abs(a.values - b.values)))
@@ -130,9 +194,33 @@ def check_hourly_index(zone, start, end, usage):
     return {"ok": not bad, "problems": bad}
 
 
+def check_hourly_pair(zone_a, zone_b, start, end):
+    """two meters in ONE process whose reporting frames cover the same instants (same first row, last row and row count) but sit in zones with
+    different clock changes: each prediction must still carry its own frame's index, whatever was predicted before"""
+    from bounded.hourly_common import fitted_hourly, reporting
+    bad = []
+    for z in (zone_a, zone_b, zone_a):
+        m, _ = fitted_hourly(z)
+        rep = reporting(z, start, end, None)
+        try:
+            p = m.predict(rep, ignore_disqualification=True)
+        except Exception as e:  # noqa
+            bad.append(f"{z} (after {zone_a if z != zone_a else zone_b}): predict raised {type(e).__name__}: {e}")
+            continue
+        if not p.index.equals(rep.df.index):
+            bad.append(f"{z}: prediction index differs from the reporting frame's index ({len(p)} vs {len(rep.df)} rows)")
+        elif not np.isfinite(p["predicted"].astype(float)).all():
+            bad.append(f"{z}: non-finite predictions")
+    return {"ok": not bad, "problems": bad}
+
+
 def replay(case):
     if case["kind"] == "kernel":
-        return check_kernel(case["zone"], case["instant"])
+        return check_kernel(case["zone"], case["instant"], case.get("place", "middle"))
+    if case["kind"] == "hourly_pair":
+        return check_hourly_pair(case["zone_a"], case["zone_b"], case["start"], case["end"])
+    if case["kind"] == "transform":
+        return check_transform(case["days"], tuple(tuple(o) for o in case["ops"]))
     return check_hourly_index(case["zone"], case["start"], case["end"], case["usage"])
 
 
@@ -160,27 +248,40 @@ def run(tier="quick", seed=0):
                 if cls in seen_classes:
                     continue
                 seen_classes[cls] = (z, inst)
-            case = {"kind": "kernel", "zone": z, "instant": pd.Timestamp(inst).isoformat()}
-            try:
-                r = replay(case)
-            except Exception as e:  # noqa
-                r = {"ok": False, "problems": [f"harness exception {type(e).__name__}: {e}"]}
-            if r.get("skipped"):
-                skipped += 1
-                continue
-            kid = None
-            if not r["ok"] and abs(delta) != 60:
-                kid = "C06-dst-not-one-hour"
-            b.case("C06.dst.kernel", case, r["ok"], nontrivial_key=(z, case["instant"]), detail=r.get("problems"), known_id=kid)
+            for place in ("middle", "last", "first"):
+                case = {"kind": "kernel", "zone": z, "instant": pd.Timestamp(inst).isoformat(), "place": place}
+                try:
+                    r = replay(case)
+                except Exception as e:  # noqa
+                    r = {"ok": False, "problems": [f"harness exception {type(e).__name__}: {e}"]}
+                if r.get("skipped"):
+                    skipped += 1
+                    continue
+                kid = None
+                if not r["ok"] and abs(delta) != 60:
+                    kid = "C06-dst-not-one-hour"
+                b.case("C06.dst.kernel", case, r["ok"], nontrivial_key=(z, case["instant"], place), detail=r.get("problems"), known_id=kid)
     b.extra["transitions_in_database"] = n_trans
     b.extra["off_the_hour_skipped"] = skipped
     b.exhaustive = tier == "thorough"
+    # (c) the normalisation as a pure function against its slot-by-slot specification: every set of up to three changes on six days (never on consecutive days), absent and
+    # repeated hours in every order (autumn before spring, spring before autumn), hours 0 / 1 / 2 / 23, the change on the first and the last day
+    tcs = transform_cases(tier)
+    for days, ops in tcs:
+        case = {"kind": "transform", "days": days, "ops": [list(o) for o in ops]}
+        r = replay(case)
+        b.case("C06.dst.transform", case, r["ok"], nontrivial_key=("transform", ops), detail=r.get("problems"))
+    b.extra["transform_cases"] = len(tcs)
     # (b) real predictions
     spans = [("America/Chicago", "2017-03-05", "2017-03-19"), ("America/Chicago", "2017-10-29", "2017-11-11"),
              ("America/Chicago", "2017-06-03", "2017-06-04"),
              # spans that END / BEGIN on the day of the change itself
              ("America/Chicago", "2017-03-05", "2017-03-12"), ("America/Chicago", "2017-10-29", "2017-11-05"),
-             ("America/Chicago", "2017-03-12", "2017-03-16"), ("America/Chicago", "2017-11-05", "2017-11-09")]
+             ("America/Chicago", "2017-03-12", "2017-03-16"), ("America/Chicago", "2017-11-05", "2017-11-09"),
+             # several changes in one span, the autumn change BEFORE the spring one
+             ("America/Chicago", "2016-10-20", "2017-03-20"), ("Australia/Sydney", "2017-03-20", "2017-10-10"),
+             # a span that ends on the day clocks go back at midnight (the repeated hour is the last row)
+             ("Asia/Beirut", "2017-10-20", "2017-10-28")]
     if tier == "thorough":
         spans += [("Europe/London", "2017-03-20", "2017-04-02"), ("Australia/Sydney", "2017-03-27", "2017-04-09"),
                   ("Asia/Tokyo", "2017-03-05", "2017-03-12")]
@@ -193,4 +294,15 @@ def run(tier="quick", seed=0):
                 import traceback
                 r = {"ok": False, "problems": [f"exception {type(ex).__name__}: {ex}", traceback.format_exc()[-500:]]}
             b.case("C06.hourly.index", case, r["ok"], nontrivial_key=(z, a, usage), detail=r.get("problems"))
+    pairs = [("America/Phoenix", "America/Denver", "2017-01-01", "2017-12-31")]
+    if tier == "thorough":
+        pairs.append(("Africa/Lagos", "Europe/Paris", "2017-01-01", "2017-12-31"))
+    for za, zb, a, e in pairs:
+        case = {"kind": "hourly_pair", "zone_a": za, "zone_b": zb, "start": a, "end": e}
+        try:
+            r = replay(case)
+        except Exception as ex:  # noqa
+            import traceback
+            r = {"ok": False, "problems": [f"exception {type(ex).__name__}: {ex}", traceback.format_exc()[-500:]]}
+        b.case("C06.hourly.index", case, r["ok"], nontrivial_key=(za, zb, a), detail=r.get("problems"))
     return b.result()
